@@ -82,8 +82,18 @@ async def shared_second_half(ran):
     ran("none" if exc is None else describe(exc))
 
 
-class TdErr(Exception):
-    """raised by a teardown callback"""
+class TdErr(TypeError):
+    """raised by a teardown callback AFTER it has done its work -- a TypeError, as a bug like `time() - None` in its
+    last line would be: an exception like any other"""
+
+
+class Lease:
+    """an object nobody but the teardown stack refers to: its bound method is the callback"""
+    def __init__(self, ran, pass_exc):
+        self.ran, self.pass_exc = ran, pass_exc
+
+    def release(self, exception=None):
+        self.ran(("none" if exception is None else describe(exception)) if self.pass_exc else "noarg")
 
 
 class Awaitable:
@@ -178,6 +188,12 @@ async def do_action(a, who):
             elif cid % 5 == 4:
                 # a callable object (no __name__ / __qualname__) is a callback like any other
                 ctx.add_teardown_callback(CallableObject(ran, pass_exc), pass_exception=pass_exc)
+            elif cid % 2 == 0:
+                # the bound method of an object only the teardown stack refers to; callable with or without the
+                # exception argument (`def release(self, exception=None)`)
+                import gc
+                ctx.add_teardown_callback(Lease(ran, pass_exc).release, pass_exception=pass_exc)
+                gc.collect()
             elif pass_exc:
                 ctx.add_teardown_callback(lambda exc: ran("none" if exc is None else describe(exc)), pass_exception=True)
             else:
